@@ -565,6 +565,23 @@ func checkC20(c *Ctx) {
 		r.Check(summaries[0] == summaries[1], "C20.counted-iff-valid", "same-kinds", "-", "both scanners recognise the same event kinds with the same predicates and counters: "+summaries[0],
 			"the two block scanners disagree on which transactions are bridge events or which counters they advance: resync ["+summaries[0]+"] vs relay ["+summaries[1]+"]")
 	}
+	// the scanners rewind their counters with the context setters: a setter stores what it is given
+	for _, f := range cp.Funcs {
+		if f.Blocks == nil || f.Signature.Recv() == nil || !strings.HasPrefix(f.Name(), "SetLast") {
+			continue
+		}
+		if n := ana.NamedOf(derefType(f.Signature.Recv().Type())); n == nil || n.Obj().Name() != "Context" {
+			continue
+		}
+		cond := false
+		for _, b := range f.Blocks {
+			if len(b.Succs) == 2 {
+				cond = true
+			}
+		}
+		r.Check(!cond, "C20.cursor", "setter:"+fname(f), cp.Pos(f.Pos()), "the setter stores the value it is given",
+			fname(f)+" stores its argument only under a condition: the start-up scan's rewind to the values at the start of a block is ignored, so the relay loop numbers every later event too high")
+	}
 	// the cursor travels by value: a function that is handed the connector context as a value and moves its
 	// counters works on a copy, so it has to hand the context back (every scanner does: it returns it)
 	for _, f := range cp.Funcs {
